@@ -6222,6 +6222,9 @@ func (t *Terminal) constrain() {
 	count := t.merger.Length()
 	maxLines := t.maxItems()
 
+	// The loop below is not entered when there is no room for items
+	t.cy = util.Constrain(t.cy, 0, util.Max(0, count-1))
+
 	// May need to try again after adjusting the offset
 	t.offset = util.Constrain(t.offset, 0, count)
 	for tries := 0; tries < maxLines; tries++ {
